@@ -74,3 +74,14 @@ where
         self.allocator.clear();
     }
 }
+
+#[cfg(feature = "verif-hooks")]
+impl<T> PacketIdManager<T>
+where
+    T: IsPacketId,
+{
+    /// Verification hook: free id intervals
+    pub fn verif_intervals(&self) -> alloc::vec::Vec<(T, T)> {
+        self.allocator.verif_intervals()
+    }
+}
